@@ -46,7 +46,7 @@ pub mod verif {
     //! mapping is a store into the page cache, which survives a process kill.  A kill is
     //! therefore modelled as "program-order effects numbered >= CRASH_AT never happen".
     #[cfg(kani)]
-    pub const FCAP: usize = 768;
+    pub const FCAP: usize = 1024;
     #[cfg(not(kani))]
     pub const FCAP: usize = 0;
     pub const NBUF: usize = 2;
@@ -105,10 +105,14 @@ pub mod verif {
             return false;
         }
         unsafe {
-            if n < FILE_LEN {
-                panic!("mmap-append model limit: shrinking the file is not modelled");
-            }
             if effect_allowed() {
+                // shrinking discards the bytes beyond the new length (they read as zeros if the
+                // file is enlarged again); keeps the invariant "zero at and beyond the length"
+                let mut i = n;
+                while i < FILE_LEN {
+                    data()[i] = 0;
+                    i += 1;
+                }
                 FILE_LEN = n;
                 EXISTS = true;
             }
